@@ -9,7 +9,7 @@ import ast
 import inspect
 import types
 
-from lib.hx import harness, pick, pickb, done, tier, PART, note, known
+from lib.hx import harness, pick, pickb, done, tier, PART, note, known, sample
 
 PROPERTY = "C03"
 LEVEL = "exploration"
@@ -179,6 +179,7 @@ def pdkind(o):
 
 
 def check_program(src, scope):
+    sample(program=src, scope=scope)
     ns = {"__name__": "m"}
     exec(compile(src, "<m>", "exec"), ns)
     s = model.System(OPTS)
